@@ -37,8 +37,19 @@ struct Pending {
 async fn run_async(ctx: &mut Ctx, which: Which) {
     let parallelism = 1 + ctx.tape.choose(3) as usize;
     let query_timeout_s = *ctx.tape.pick(&[60u64, 5]);
+    // ban duration: the default (1 h), a short one, or None = banned for good
+    let ban_knob = ctx.tape.choose(4);
     let mut sw = match SWorld::new(0, true, ListenConfig::Ipv4 { ip: std::net::Ipv4Addr::new(10, 1, 0, 250), port: 9000 }, |b| {
         b.query_parallelism(parallelism).query_timeout(std::time::Duration::from_secs(query_timeout_s)).disable_enr_update();
+        match ban_knob {
+            0 => {
+                b.ban_duration(None);
+            }
+            1 => {
+                b.ban_duration(Some(std::time::Duration::from_secs(600)));
+            }
+            _ => {}
+        }
     })
     .await
     {
